@@ -7,6 +7,7 @@ from harness.common import run_check, expectation
 from checks.serverfam import *
 from checks.c03 import srv_expect        # registers 'srv_expect'
 from native import oracle
+from checks import hobl
 
 
 def q_msg(text):
@@ -267,6 +268,7 @@ def main(chk):
         tasks.append((o2_marking, (prog, tl)))
     chk.parallel(_dispatch, tasks)
 
+    hobl.handle_obligations(chk, prog, {'C02'}, ['simple', 'session', 'extended', 'named', 'malformed', 'cuts', 'status', 'plugins'])
 
 if __name__ == '__main__':
     run_check('C02', main)
